@@ -103,8 +103,8 @@ def run(ctx):
     th.start()
     port = srv.server_address[1]
     old = (A.AUTH_SERVER, A.SESSION_SERVER)
-    A.AUTH_SERVER = 'http://127.0.0.1:%d/auth' % port
-    A.SESSION_SERVER = 'http://127.0.0.1:%d/session' % port
+    A.AUTH_SERVER = 'http://127.0.0.1:%d' % port            # same shape as the real constants:
+    A.SESSION_SERVER = 'http://127.0.0.1:%d/session/minecraft' % port   # no path / a path prefix
     real_uuid4 = A.uuid.uuid4
     lines, impl = [], []
     try:
@@ -173,7 +173,10 @@ def run(ctx):
                 if reqs:
                     path, body, ctype = reqs[0]
                     pj = json.loads(body)
-                    srvname, endpoint = path.strip('/').split('/', 1)
+                    if path.startswith('/session/minecraft/'):
+                        srvname, endpoint = 'session', path[len('/session/minecraft/'):]
+                    else:
+                        srvname, endpoint = 'auth', path.lstrip('/')
 
                     def flat(prefix, o):
                         items = []
@@ -264,20 +267,20 @@ def run(ctx):
                 path = reqs[0][0]
                 exp = None
                 if op == 'authenticate':
-                    exp = ('/auth/authenticate', {'agent': {'name': 'Minecraft', 'version': 1},
+                    exp = ('/authenticate', {'agent': {'name': 'Minecraft', 'version': 1},
                                                   'username': user, 'password': pw})
                     if not inval:
                         exp[1]['clientToken'] = before[2] or fresh
                 elif op == 'refresh':
-                    exp = ('/auth/refresh', {'accessToken': before[1], 'clientToken': before[2]})
+                    exp = ('/refresh', {'accessToken': before[1], 'clientToken': before[2]})
                 elif op == 'validate':
-                    exp = ('/auth/validate', {'accessToken': before[1]})
+                    exp = ('/validate', {'accessToken': before[1]})
                 elif op == 'invalidate':
-                    exp = ('/auth/invalidate', {'accessToken': before[1], 'clientToken': before[2]})
+                    exp = ('/invalidate', {'accessToken': before[1], 'clientToken': before[2]})
                 elif op == 'signout':
-                    exp = ('/auth/signout', {'username': user, 'password': pw})
+                    exp = ('/signout', {'username': user, 'password': pw})
                 elif op == 'join':
-                    exp = ('/session/join', {'accessToken': before[1],
+                    exp = ('/session/minecraft/join', {'accessToken': before[1],
                                              'selectedProfile': {'id': before[3], 'name': before[4]},
                                              'serverId': sid})
                 if exp and (path, pj) != exp:
